@@ -203,11 +203,14 @@ func execC07Real(a c07RealArgs) CaseOut {
 	}
 	// g pings the victim: data packet g:pg -> v:ping, the reply comes back to g:pg
 	nrep := len(g.received())
-	g.send(mkData(10, "g", "v", "pg", "ping", nil))
-	gotReply := g.waitFor(5*time.Second, func(m []byte) bool {
-		h, ok := parseData(m)
-		return ok && h.ToSvc == "pg" && h.FromSvc == "ping"
-	})
+	gotReply := false
+	for try := 0; try < 4 && !gotReply; try++ { // (a datagram may be sent again; the machine may be busy)
+		g.send(mkData(10, "g", "v", "pg", "ping", nil))
+		gotReply = g.waitFor(4*time.Second, func(m []byte) bool {
+			h, ok := parseData(m)
+			return ok && h.ToSvc == "pg" && h.FromSvc == "ping"
+		})
+	}
 	_ = nrep
 	if !gotReply {
 		out.violate("peer:good-peer-cannot-reach-victim:"+a.Class, "%s: the well-behaved peer's ping was not answered", ctx)
